@@ -43,6 +43,19 @@ def load_known():
         return {"findings": []}
 
 
+def fixed_ids():
+    """Ids of findings repaired in /repo: their exclusion classes are lifted in every run (a fixed entry suppresses nothing)."""
+    return sorted(set(f["id"] for f in load_known()["findings"] if f.get("status") == "fixed") -
+                  set(f["id"] for f in load_known()["findings"] if f.get("status") == "known"))
+
+
+def lift_args():
+    a = []
+    for i in fixed_ids():
+        a += ["--include-known", i]
+    return a
+
+
 class Job:
     """One batch of worker processes of one target binary."""
 
@@ -85,7 +98,7 @@ def read_status(path):
 
 
 def replay_case(binary, path, include_known=(), case_timeout=120):
-    cmd = [binary, "--replay", path, "--case-timeout", str(case_timeout)]
+    cmd = [binary, "--replay", path, "--case-timeout", str(case_timeout)] + lift_args()
     for k in include_known:
         cmd += ["--include-known", k]
     r = subprocess.run(cmd, stdout=subprocess.PIPE, stderr=subprocess.PIPE, env=env_for())
@@ -96,7 +109,7 @@ def replay_case(binary, path, include_known=(), case_timeout=120):
 
 
 def describe_case(binary, path, include_known=()):
-    cmd = [binary, "--describe", path]
+    cmd = [binary, "--describe", path] + lift_args()
     for k in include_known:
         cmd += ["--include-known", k]
     try:
@@ -107,7 +120,7 @@ def describe_case(binary, path, include_known=()):
 
 
 def shrink_case(binary, path, out, maxtime=45, include_known=()):
-    cmd = [binary, "--shrink", path, "--out", out, "--maxtime", str(maxtime)]
+    cmd = [binary, "--shrink", path, "--out", out, "--maxtime", str(maxtime)] + lift_args()
     for k in include_known:
         cmd += ["--include-known", k]
     try:
@@ -194,7 +207,7 @@ def start_worker(job, binary, wdir, w, seed, start, maxtime, gen=0):
         cmd += ["--random", "--cases", str(job.cases)]
     elif job.mode == "enumerate":
         cmd += ["--enumerate", "--nworkers", str(job.workers), "--enum-stride", str(job.enum_stride)]
-    cmd += list(job.extra_args)
+    cmd += list(job.extra_args) + lift_args()
     ef = open(ep, "w")
     p = subprocess.Popen(cmd, stdout=subprocess.DEVNULL, stderr=ef, env=env_for())
     ef.close()
@@ -238,7 +251,7 @@ def run_fuzz(job, seed, prop_id, log, binary, wdir, res):
         rp = os.path.join(wdir, "report.fuzz.%d.json" % j)
         ep = os.path.join(wdir, "stderr.fuzz.%d" % j)
         fseed = (seed * 1000003 + j * 7919 + 1) % (2 ** 31 - 1) or 1
-        cmd = [binary, "--fuzz", "--report", rp, "--", cdir, "-seed=%d" % fseed, "-max_total_time=%d" % job.fuzz_time,
+        cmd = [binary, "--fuzz", "--report", rp] + lift_args() + ["--", cdir, "-seed=%d" % fseed, "-max_total_time=%d" % job.fuzz_time,
                "-artifact_prefix=" + adir, "-rss_limit_mb=3000", "-timeout=60", "-max_len=%d" % 4096, "-print_final_stats=1",
                "-use_value_profile=1", "-len_control=50"]
         ef = open(ep, "w")
